@@ -79,7 +79,12 @@ func checkBack(what, p string, t codon.Table, f ctab.Flat) error {
 }
 
 func check(c Case) error {
-	t := c.Table.Build()
+	// a table that was re-weighted before (ctab.Spec.Twice) has been used for an Optimize call in that earlier
+	// state: what the judged call does must depend on the table's present weights only
+	t := c.Table.BuildWith(func(earlier codon.Table) {
+		defer func() { _ = recover() }()
+		_, _ = codon.Optimize("MKVLAAGIW*"+c.Protein, earlier)
+	})
 	f, err := ctab.Flatten(t)
 	if err != nil {
 		return vk.Harnessf("table: %v", err)
